@@ -142,6 +142,17 @@ def judge(case, impl_res, ans):
                 return 'SPEC: rescaled %s %d has peak amplitude %r, expected its mean spike amplitude %r' % (
                     use[:-1], t, peak, DC.to_float(pk) * f)
         got_ch = ok[use + '_channels']
+        # the same two summaries recomputed in floating point from the waveforms the model shows (for
+        # curated clusters these are weighted means, where the exact-rational model is not used)
+        W = np.array(a['wfs'], dtype=np.float64)
+        if W.size:
+            ptp = W.max(axis=1) - W.min(axis=1)
+            pk = ptp.argmax(axis=1)
+            dur = (W.argmax(axis=1) - W.argmin(axis=1))[np.arange(len(W)), pk].astype(np.float64) / sr * 1e3
+            if got_ch != pk.tolist():
+                return 'SPEC: %s_channels differ from the first arg-max of the per-channel peak-to-peak of the %s waveforms' % (use, use[:-1])
+            if ok[use + '_durations'] != dur.tolist():
+                return 'SPEC: %s waveform durations differ from (argmax - argmin) on the peak channel in ms' % use
         if got_ch != ch['peak'] and not (use == 'clusters' and curated):
             return 'SPEC: %s_channels differ from the first arg-max of the per-channel peak-to-peak' % use
         exp_d = [float(x) / sr * 1e3 for x in ch['durations']]
